@@ -227,16 +227,39 @@ func runC16(c *Ctx) {
 	for i := 0; i < c.Scale(60, 1500); i++ {
 		typ := []uint16{dns.TypeMX, dns.TypeNS, dns.TypeTXT, dns.TypeA, dns.TypeSRV, dns.TypeSOA, dns.TypeNSEC, dns.TypeRRSIG}[r.Intn(8)]
 		var set []dns.RR
-		owner := strings.ToUpper("Www.Example.ORG.")
+		// owner already canonical or not, wildcard or not; TTLs equal to the original TTL or not: every combination of
+		// "does Sign / Verify have to rewrite the header of its working copy"
+		owner := []string{"WWW.EXAMPLE.ORG.", "www.example.org.", "*.example.org.", "Www.Example.ORG."}[r.Intn(4)]
+		sameTTL := r.Bool()
+		fromText := r.Chance(40)
 		for k := 0; k < 1+r.Intn(3); k++ {
-			g := genRR(r, typ, 0, true)
-			rr, _, err := dns.UnpackRR(g.Wire, 0)
-			if err != nil {
-				continue
+			var rr dns.RR
+			if fromText {
+				// names inside the RDATA with upper-case letters (canonical form lower-cases them in the signed octets only)
+				line := []string{"MX 10 MX-%d.Example.ORG.", "NS NS%d.Example.ORG.", "SRV 1 2 53 Srv%d.EXAMPLE.org.", "CNAME Target%d.Example.ORG.",
+					"SOA Ns%d.Example.ORG. Hostmaster.Example.ORG. 1 2 3 4 5", "RP Mbox%d.Example.ORG. Txt.Example.ORG.", "KX 1 Kx%d.Example.ORG.", "PTR Ptr%d.Example.ORG."}[r.Intn(8)]
+				x, err := dns.NewRR("x. 100 IN " + fmt.Sprintf(line, k))
+				if err != nil || x == nil {
+					continue
+				}
+				if len(set) > 0 && set[0].Header().Rrtype != x.Header().Rrtype {
+					continue
+				}
+				rr = x
+			} else {
+				g := genRR(r, typ, 0, true)
+				x, _, err := dns.UnpackRR(g.Wire, 0)
+				if err != nil {
+					continue
+				}
+				rr = x
 			}
 			rr.Header().Name = owner
 			rr.Header().Class = 1
 			rr.Header().Ttl = uint32(100 + k)
+			if sameTTL {
+				rr.Header().Ttl = 100
+			}
 			set = append(set, rr)
 		}
 		if len(set) == 0 {
